@@ -3012,6 +3012,11 @@ static EbErrorType verify_settings(
                     SVT_LOG("Error instance %u: Invalid decode order for manual prediction structure [0 - 31], your input: %d\n", channel_number + 1, config->pred_struct[i].decode_order);
                     return_error = EB_ErrorBadParameter;
                 }
+                else if(config->pred_struct[i].decode_order >= (uint32_t)config->manual_pred_struct_entry_num){
+                    // the decode orders of a mini-GOP index its own decode/display order tables
+                    SVT_LOG("Error instance %u: Invalid decode order for manual prediction structure, must be smaller than the entry number %d, your input: %d\n", channel_number + 1, config->manual_pred_struct_entry_num, config->pred_struct[i].decode_order);
+                    return_error = EB_ErrorBadParameter;
+                }
                 if(config->pred_struct[i].temporal_layer_index >= (1<<(MAX_HIERARCHICAL_LEVEL-1))){
                     SVT_LOG("Error instance %u: Invalid temporal layer index for manual prediction structure [0 - 31], your input: %d\n", channel_number + 1, config->pred_struct[i].temporal_layer_index);
                     return_error = EB_ErrorBadParameter;
